@@ -231,7 +231,8 @@ def check_cancel_with_flag(vc, clause, evs):
 
 # =============================================================================================== D2
 @harness('D2', targets=['kopf._core.engines.daemons.stop_daemons', 'kopf._core.engines.daemons.stop_daemon'],
-         props=['C09', 'C06', 'C20'],
+         props=['C09', 'C06', 'C20', 'C13', 'C03'],
+         prop_clauses={'C13': ['flag_first', 'crash_free', 'one.flag_first', 'one.progress'], 'C03': ['delays', 'crash_free']},
          clauses=['flag_first', 'stage_table', 'stage_progress', 'cancel_with_flag', 'delays',
                   'delays_nonempty_while_alive', 'returns_collected', 'crash_free',
                   'one.flag_first', 'one.stage_order', 'one.cancel_with_flag', 'one.progress',
@@ -611,7 +612,8 @@ class TracedMemory:
         object.__setattr__(self, k, v)
 
 
-@harness('D1', targets=['kopf._core.engines.daemons.spawn_daemons', 'kopf._core.engines.daemons._runner'], props=['C09', 'C10', 'C13', 'C06', 'C20'],
+@harness('D1', targets=['kopf._core.engines.daemons.spawn_daemons', 'kopf._core.engines.daemons._runner'], props=['C09', 'C10', 'C13', 'C06', 'C20', 'C08', 'C15'],
+         prop_clauses={'C08': ['runner_wired', 'live_body_kept_while_shared'], 'C15': ['spawn_only_absent', 'runner_wired', 'frame']},
          clauses=['spawn_only_absent', 'atomic_register', 'runner_wired', 'frame',
                   'wraps_by_kind', 'forever_stopped_iff_self_exit', 'removal_last', 'done_flag', 'propagates',
                   'live_body_kept_while_shared'],
@@ -833,7 +835,8 @@ def _d1_runner(vc):
 
 # =============================================================================================== D3
 @harness('D3', targets=['kopf._core.engines.daemons.match_daemons', 'kopf._core.engines.daemons.pause_daemons',
-                        'kopf._core.engines.daemons.daemon_killer'], props=['C09', 'C13', 'C20'],
+                        'kopf._core.engines.daemons.daemon_killer'], props=['C09', 'C13', 'C20', 'C10', 'C15'],
+         prop_clauses={'C10': ['match.stops_exactly_mismatching', 'pause.iff_paused', 'killer.pause_only_when_paused'], 'C15': ['match.stops_exactly_mismatching']},
          clauses=['match.stops_exactly_mismatching', 'match.reason', 'match.delays',
                   'pause.iff_paused', 'pause.reason_all', 'pause.delays',
                   'killer.pause_stops_all', 'killer.pause_only_when_paused', 'killer.pause_rounds_while_on',
@@ -1173,8 +1176,8 @@ def _killer_pause_guard(vc):
 
 
 # =============================================================================================== H7
-@harness('H7', targets='kopf._core.reactor.processing.process_spawning_cause', props=['C09', 'C10', 'C11'],
-         prop_clauses={'C11': ['spawn_match_pause_order', 'excludes_forever_stopped', 'no_suspension_between_selection_and_spawning']},
+@harness('H7', targets='kopf._core.reactor.processing.process_spawning_cause', props=['C09', 'C10', 'C11', 'C06', 'C13', 'C15', 'C03'],
+         prop_clauses={'C11': ['spawn_match_pause_order', 'excludes_forever_stopped', 'no_suspension_between_selection_and_spawning'], 'C06': ['deletion_stops_all', 'delays_passed_on', 'spawn_match_pause_order'], 'C13': ['spawn_match_pause_order'], 'C15': ['spawn_match_pause_order'], 'C03': ['delays_passed_on']},
          clauses=['no_suspension_between_selection_and_spawning', 'deletion_stops_all', 'spawn_match_pause_order', 'excludes_forever_stopped', 'body_before_spawn',
                   'delays_passed_on', 'idle_reset_iff_reset'],
          canaries=['canary.always_spawns', 'canary.never_resets'],
